@@ -183,6 +183,174 @@ theorem readTransition_render (s : RS) (t : ATempl) (e : AEdge)
   simp only [refName, attr, List.lookup, beq_self_eq_true] at *
   simp only [hs, ht, edgeCallsX]
   cases h1 : nameOf t src <;> cases h2 : nameOf t tgt <;> simp [RS.emit, hsc, ctrl_attr, ctrlOf]
-  sorry
+  exact ctrl_attr ctrl
+
+/-! ### the loops and the `names` map -/
+
+theorem locs_fold (ls : List ALoc) (s : RS) :
+    ls.foldl (fun s x => readLocation s (locAttrs x) (locKids x)) s
+      = { names := (ls.map (fun l => (l.id, l.effName))).reverse ++ s.names, out := s.out ++ ls.flatMap locCallsX } := by
+  induction ls generalizing s with
+  | nil => simp
+  | cons x r ih => rw [List.foldl_cons, readLocation_render, ih]; simp
+
+theorem bps_fold (bs : List String) (s : RS) :
+    bs.foldl (fun s x => readBranchpoint s (bpAttrs x) []) s
+      = { names := (bs.map (fun b => (b, bpName b))).reverse ++ s.names,
+          out := s.out ++ bs.map (fun b => Call.procBranchpoint (bpName b)) } := by
+  induction bs generalizing s with
+  | nil => simp
+  | cons x r ih =>
+    rw [List.foldl_cons, ih]
+    simp [readBranchpoint, bpAttrs, attr, List.lookup, bpName]
+
+theorem edges_fold (t : ATempl) (es : List AEdge) (s : RS)
+    (h : ∀ e ∈ es, s.names.lookup e.src = nameOf t e.src ∧ s.names.lookup e.tgt = nameOf t e.tgt) :
+    es.foldl (fun s x => readTransition s (edgeAttrs x) (edgeKids x)) s
+      = { names := s.names, out := s.out ++ es.flatMap (edgeCallsX t) } := by
+  induction es generalizing s with
+  | nil => simp
+  | cons x r ih =>
+    rw [List.foldl_cons, readTransition_render s t x (h x (by simp)).1 (h x (by simp)).2, ih]
+    · simp
+    · intro e he; exact h e (by simp [he])
+
+theorem lookup_of_mem (l : List (String × String)) (hn : (l.map Prod.fst).Nodup) {k v : String} (h : (k, v) ∈ l)
+    (r : List (String × String)) : (l ++ r).lookup k = some v := by
+  induction l with
+  | nil => cases h
+  | cons x l ih =>
+    obtain ⟨a, b⟩ := x
+    simp only [List.map_cons, List.nodup_cons] at hn
+    rcases List.mem_cons.mp h with h' | h'
+    · cases h'; simp [List.lookup]
+    · have hne : k ≠ a := by
+        intro heq; subst heq
+        exact hn.1 (List.mem_map.mpr ⟨(k, v), h', rfl⟩)
+      simp only [List.cons_append, List.lookup]
+      have : (k == a) = false := by simp [hne]
+      rw [this]
+      exact ih hn.2 h'
+
+theorem nodup_rev {α} {l : List α} (h : l.Nodup) : l.reverse.Nodup := by
+  unfold List.Nodup at *
+  rw [List.pairwise_reverse]
+  exact h.imp (fun hab => Ne.symm hab)
+
+theorem templNames_keys (t : ATempl) : (templNames t).map Prod.fst = t.nodeIds.reverse := by
+  simp [templNames, ATempl.nodeIds, List.map_reverse, List.map_append, Function.comp_def]
+
+theorem names_lookup (t : ATempl) (nm : List (String × String)) (hnd : t.nodeIds.Nodup) (ref : String)
+    (href : ref ∈ t.nodeIds) : (templNames t ++ nm).lookup ref = nameOf t ref := by
+  have hk : ((templNames t).map Prod.fst).Nodup := by rw [templNames_keys]; exact nodup_rev hnd
+  unfold nameOf
+  cases hf : t.locs.find? (·.id == ref) with
+  | some l =>
+    have hl : l ∈ t.locs := List.mem_of_find?_eq_some hf
+    have hid : l.id = ref := by simpa using List.find?_some hf
+    apply lookup_of_mem _ hk
+    simp only [templNames, List.mem_reverse, List.mem_append, List.mem_map]
+    exact Or.inl ⟨l, hl, by simp [hid]⟩
+  | none =>
+    have hnot : ref ∉ t.locs.map (·.id) := by
+      intro hmem
+      obtain ⟨l, hl, hid⟩ := List.mem_map.mp hmem
+      have := List.find?_eq_none.mp hf l hl
+      simp [hid] at this
+    have hb : ref ∈ t.bps := by
+      rcases List.mem_append.mp href with h | h
+      · exact absurd h hnot
+      · exact h
+    have hc : t.bps.contains ref = true := by simpa using hb
+    simp only [hc, if_true]
+    apply lookup_of_mem _ hk
+    simp only [templNames, List.mem_reverse, List.mem_append, List.mem_map]
+    exact Or.inr ⟨ref, hb, rfl⟩
+
+/-! ### one template -/
+
+theorem renderInit_stop (tag : String) (i : Option String) (h : "init" ≠ tag) : AllStop tag (renderInit i) := by
+  cases i with
+  | none => exact AllStop.nil
+  | some r => exact AllStop.cons h (by decide) AllStop.nil
+
+theorem readInit_render (s : RS) (t : ATempl) (rest : List Xml) (hstop : AllStop "init" rest)
+    (hlook : ∀ r, t.init = some r → s.names.lookup r = nameOf t r) :
+    readInit s (renderInit t.init ++ rest) = ({ names := s.names, out := s.out ++ initCallsX t }, rest) := by
+  cases hi : t.init with
+  | none => simp [renderInit, readInit, opt_stop _ _ hstop, initCallsX, RS.emit, hi]
+  | some r =>
+    have := hlook r hi
+    simp only [renderInit, readInit, opt, List.cons_append, List.nil_append, ↓reduceIte, attr, List.lookup, beq_self_eq_true,
+      this, initCallsX, hi]
+    cases nameOf t r <;> simp [RS.emit]
+
+theorem edges_scan (t : ATempl) (s : RS)
+    (h : ∀ e ∈ t.edges, s.names.lookup e.src = nameOf t e.src ∧ s.names.lookup e.tgt = nameOf t e.tgt) :
+    scan "transition" readTransition s (t.edges.map (fun x => Xml.elem "transition" (edgeAttrs x) (edgeKids x)))
+      = ({ names := s.names, out := s.out ++ t.edges.flatMap (edgeCallsX t) }, []) := by
+  have := scan_map "transition" readTransition edgeAttrs edgeKids t.edges [] s
+  rw [List.append_nil] at this
+  rw [this, edges_fold t t.edges s h]; rfl
+
+theorem readTemplate_render (s : RS) (t : ATempl) (hnd : t.nodeIds.Nodup)
+    (hinit : ∀ r, t.init = some r → r ∈ t.nodeIds)
+    (hedges : ∀ e ∈ t.edges, e.src ∈ t.nodeIds ∧ e.tgt ∈ t.nodeIds) :
+    readTemplate s [] (templKids t) = { names := templNames t ++ s.names, out := s.out ++ templCallsX t } := by
+  have hstopL : AllStop "location" (t.bps.map (fun x => Xml.elem "branchpoint" (bpAttrs x) []) ++
+      (renderInit t.init ++ t.edges.map (fun x => Xml.elem "transition" (edgeAttrs x) (edgeKids x)))) :=
+    AllStop.append (AllStop.map _ _ _ (by decide) (by decide))
+      (AllStop.append (renderInit_stop _ _ (by decide)) (AllStop.map _ _ _ (by decide) (by decide)))
+  have hstopB : AllStop "branchpoint"
+      (renderInit t.init ++ t.edges.map (fun x => Xml.elem "transition" (edgeAttrs x) (edgeKids x))) :=
+    AllStop.append (renderInit_stop _ _ (by decide)) (AllStop.map _ _ _ (by decide) (by decide))
+  have hnames : ∀ ref, ref ∈ t.nodeIds →
+      ((t.bps.map (fun b => (b, bpName b))).reverse ++ ((t.locs.map (fun l => (l.id, l.effName))).reverse ++ s.names)).lookup ref
+        = nameOf t ref := by
+    intro ref href
+    have := names_lookup t s.names hnd ref href
+    simpa [templNames, List.reverse_append, List.append_assoc] using this
+  simp only [readTemplate, templKids, List.cons_append, List.nil_append, opt, ↓reduceIte, firstText, firstStr, RS.emit,
+    parseCalls, readDeclaration]
+  rw [scan_map, scan_stop _ _ _ _ hstopL, locs_fold]
+  simp only []
+  rw [scan_map (f := readBranchpoint) (g := bpAttrs) (h := fun _ => []), scan_stop _ _ _ _ hstopB, bps_fold]
+  simp only []
+  rw [readInit_render _ t _ (AllStop.map _ _ _ (by decide) (by decide)) (fun r hr => hnames r (hinit r hr))]
+  simp only []
+  rw [edges_scan t _ (fun e he => ⟨hnames _ (hedges e he).1, hnames _ (hedges e he).2⟩)]
+  simp [templNames, templCallsX, List.reverse_append, List.append_assoc]
+
+/-! ### the whole document -/
+
+/-- the part of well-formedness the reader needs: ids unique inside the template, references resolve inside it -/
+def ReaderWf (t : ATempl) : Prop :=
+  t.nodeIds.Nodup ∧ (∀ r, t.init = some r → r ∈ t.nodeIds) ∧ (∀ e ∈ t.edges, e.src ∈ t.nodeIds ∧ e.tgt ∈ t.nodeIds)
+
+def xmlCalls (M : AModel) : List Call :=
+  M.gdecls.map .declItem ++ M.templates.flatMap templCallsX ++ parseCalls .system (.system M.insts M.procs) ++ [.done]
+
+theorem templs_fold (ts : List ATempl) (s : RS) (h : ∀ t ∈ ts, ReaderWf t) :
+    ∃ nm, ts.foldl (fun s x => readTemplate s [] (templKids x)) s = { names := nm, out := s.out ++ ts.flatMap templCallsX } := by
+  induction ts generalizing s with
+  | nil => exact ⟨s.names, by simp⟩
+  | cons x r ih =>
+    obtain ⟨h1, h2, h3⟩ := h x (by simp)
+    rw [List.foldl_cons, readTemplate_render s x h1 h2 h3]
+    obtain ⟨nm, hnm⟩ := ih { names := templNames x ++ s.names, out := s.out ++ templCallsX x } (fun t ht => h t (by simp [ht]))
+    exact ⟨nm, by rw [hnm]; simp⟩
+
+theorem readXml_render (M : AModel) (h : ∀ t ∈ M.templates, ReaderWf t) : readXml (renderXml M) = xmlCalls M := by
+  have hstopT : AllStop "template" [Xml.elem "system" [] [.text (.system M.insts M.procs)]] :=
+    AllStop.cons (by decide) (by decide) AllStop.nil
+  have hstopI : AllStop "instantiation" [Xml.elem "system" [] [.text (.system M.insts M.procs)]] :=
+    AllStop.cons (by decide) (by decide) AllStop.nil
+  obtain ⟨nm, hnm⟩ := templs_fold M.templates { names := [], out := M.gdecls.map Call.declItem } h
+  simp only [readXml, renderXml, ntaKids, true_or, ↓reduceIte, List.cons_append, List.nil_append, readDeclaration, opt,
+    firstText, RS.emit, parseCalls]
+  rw [scan_map (f := readTemplate) (g := fun _ => []) (h := templKids), scan_stop _ _ _ _ hstopT]
+  simp only [opt_stop _ _ hstopI]
+  rw [hnm]
+  simp [readSystem, opt, firstText, RS.emit, xmlCalls, parseCalls]
 
 end UtapModel.AM
